@@ -1,0 +1,6 @@
+//go:build !verif
+
+package utils
+
+// verifYield is a no-op outside verification builds (see verif_on.go).
+func verifYield(string) {}
